@@ -73,95 +73,168 @@ def regenerate(ctx):
 
 
 # ------------------------------------------------------------------ receivers and arguments
+#
+# Value catalogue.  Every class has SEVERAL values; the first `core` ones are used by the quick tier's one-factor
+# plan (every core value of every parameter at least once per row and admitted argument count), the others by the
+# seeded extra picks of the quick tier and by the thorough tier's receiver x argument product.  The values are the
+# algebraically special ones: 0, 1, -1, 2, small primes (exact divisors / non-divisors of the receivers' components),
+# boundary ints of every width, empty / singleton / repeated-element collections, zero / negative / mixed-sign spans.
+
+HUGE_INTS = ["9223372036854775807", "(-9223372036854775807)", "9223372036854775808", "(-18446744073709551616)"]
+
+
+def _fixed(sfx, hi, signed):
+    core = ["2" + sfx, "0" + sfx]
+    ext = ["1" + sfx, "3" + sfx, "7" + sfx, "%d%s" % (hi, sfx)]
+    if signed:
+        ext += ["(-1%s)" % sfx, "(-%d%s)" % (hi, sfx)]
+    return core, ext
+
+
+FIXED = {"Std::Int8": ("i8", 127, True), "Std::Int16": ("i16", 32767, True), "Std::Int32": ("i32", 2147483647, True),
+         "Std::Int64": ("i64", 9223372036854775807, True), "Std::UInt8": ("u8", 255, False), "Std::UInt16": ("u16", 65535, False),
+         "Std::UInt32": ("u32", 4294967295, False), "Std::UInt64": ("u64", 18446744073709551615, False),
+         "Std::UInt": ("u", 18446744073709551615, False)}
+
+# class -> (core values, further values)
+POOL = {
+    "Std::Int": (["2", "0", "1", "(-1)", "3"], ["(-2)", "4", "5", "7", "10", "12", "60", "64", "(-7)"] + HUGE_INTS),
+    "Std::Float": (["2.5", "1.0", "0.0", "(-1.0)"], ["0.5", "3.0", "(-2.5)", "1e300", "Float::NAN", "Float::INF"]),
+    "Std::BigFloat": (["2.5bf", "1.0bf", "0.0bf"], ["(-1.0bf)", "0.5bf", "3.0bf", "1e100bf"]),
+    "Std::Float64": (["2.5f64", "0.0f64"], ["1.0f64", "(-1.0f64)"]), "Std::Float32": (["2.5f32", "0.0f32"], ["1.0f32", "(-1.0f32)"]),
+    "Std::String": (['"ab"', '""', '"a"'], ['"héllo"', '"123"', '" x "', '"a,b"', '"%Y-%m-%d"', '"2024-02-29"', '"1h 2m"', '"3M 5D"', '"UTC"']),
+    "Std::Char": (["`a`", "`é`"], ["`0`", "` `", "`\\n`"]),
+    "Std::Symbol": ([":a", ":foo"], [':"a b"']),
+    "Std::True": (["true"], []), "Std::False": (["false"], []), "Std::Nil": (["nil"], []),
+    "Std::Regex": (["%/a/", "%//"], ["%/(a)(b)?/", "%/^x$/"]),
+    "Std::ClosedRange": (["(0...1)", "(1...0)"], ["(0...0)", "((-2)...5)"]),
+    "Std::RightOpenRange": (["(0..<1)"], ["(0..<0)"]),
+    "Std::OpenRange": (["(0<.<2)"], []), "Std::LeftOpenRange": (["(0<..1)"], []),
+    "Std::EndlessClosedRange": (["(1...)"], []), "Std::BeginlessClosedRange": (["(...1)"], []),
+    "Std::ArrayList": (["[1]", "ArrayList::[Int]()"], ["[3, 1, 2]", "[1, 1]"]),
+    "Std::ArrayTuple": (["%[1, 2]", "ArrayTuple::[Int]()"], ["%[1]"]),
+    "Std::HashSet": (["^[1, 2]"], ["^[1]"]), "Std::HashMap": (["{1 => 2}"], ["{1 => 2, 3 => 4}"]),
+    "Std::HashRecord": (["%{1 => 2}"], ["%{1 => 2, 3 => 4}"]),
+    "Std::Pair": (["Pair(1, 2)"], ["Pair(1, 1)"]),
+    "Std::Time::Span": (["Time::Span(1, 2, 3)", "Time::Span(0, 0, 0)"], ["Time::Span(-1, -2, -3)", "Time::Span(2, 4, 6)", "Time::Span(25, 61, 61)"]),
+    "Std::Date::Span": (["Date::Span(1, 2, 3)", "Date::Span(0, 0, 0)"], ["Date::Span(-1, -2, -3)", "Date::Span(0, 6, 10)", "Date::Span(0, -6, 9)"]),
+    "Std::DateTime::Span": (["DateTime::Span(1, 2, 3)", "DateTime::Span()"],
+                            ["DateTime::Span(-1, -2, -3, -4, -5, -6)", "DateTime::Span(0, 6, 10, 2, 4, 6)", "DateTime::Span(0, 0, 0, 1, 2, 3)"]),
+    "Std::DateTime": (["DateTime(2024, 2, 29, 13, 5, 7)"], ["DateTime(1970, 1, 1)", "DateTime(2023, 12, 31, 23, 59, 59)"]),
+    "Std::Date": (["Date(2024, 2, 29)"], ["Date(1970, 1, 1)", "Date(2023, 12, 31)"]),
+    "Std::Time": (["Time(13, 5, 7)"], ["Time(0, 0, 0)", "Time(23, 59, 59)"]),
+    "Std::Timezone": (["Timezone::UTC"], ["Timezone.from_offset(Time::Span(2))"]),
+    "Std::FS::Path": (['FS::Path("c")'], ['FS::Path("")']),
+    "Std::String::Position": (["String::Position(1, 2, 3)"], ["String::Position(0, 1, 1)"]),
+}
+for _c, (_s, _hi, _sg) in FIXED.items():
+    POOL[_c] = _fixed(_s, _hi, _sg)
+# values offered to `any` / interface-typed parameters (one per class family)
+MIXED = ["1", '"ab"', "nil", "2.5", ":a", "`a`", "true", "[1]", "2i8", "2.5bf"]
 
 RECV = {
-    "Std::Int": ["5", "0", "(-3)"],
-    "Std::Float": ["2.5"],
-    "Std::BigFloat": ["2.5bf"],
-    "Std::Float64": ["2.5f64"], "Std::Float32": ["2.5f32"],
-    "Std::Int8": ["5i8"], "Std::Int16": ["5i16"], "Std::Int32": ["5i32"], "Std::Int64": ["5i64"],
-    "Std::UInt8": ["5u8"], "Std::UInt16": ["5u16"], "Std::UInt32": ["5u32"], "Std::UInt64": ["5u64"], "Std::UInt": ["5u"],
-    "Std::String": ['"héllo"', '""'],
-    "Std::Char": ["`a`"],
-    "Std::Symbol": [":foo"],
+    "Std::Int": ["5", "0", "(-3)", "1", "(-1)", "2", "12", "60"] + HUGE_INTS,
+    "Std::Float": ["2.5", "0.0", "(-1.5)", "3.0", "1e300", "Float::NAN", "Float::INF"],
+    "Std::BigFloat": ["2.5bf", "0.0bf", "(-1.5bf)", "3.0bf", "1e100bf"],
+    "Std::Float64": ["2.5f64", "0.0f64", "(-1.5f64)"], "Std::Float32": ["2.5f32", "0.0f32", "(-1.5f32)"],
+    "Std::String": ['"héllo"', '""', '"a"', '"abc def"', '"123"', '" x "'],
+    "Std::Char": ["`a`", "`é`", "`0`", "` `", "`\\n`"],
+    "Std::Symbol": [":foo", ':"a b"'],
     "Std::True": ["true"], "Std::False": ["false"], "Std::Nil": ["nil"],
-    "Std::ArrayList": ["[3, 1, 2]", "ArrayList::[Int]()"],
-    "Std::ArrayTuple": ["%[3, 1, 2]", "ArrayTuple::[Int]()"],
-    "Std::HashMap": ["{1 => 2, 3 => 4}"],
-    "Std::HashRecord": ["%{1 => 2, 3 => 4}"],
+    "Std::ArrayList": ["[3, 1, 2]", "ArrayList::[Int]()", "[1]", "[5, 5, 5]", "[0, -1, 2, 7, 7]"],
+    "Std::ArrayTuple": ["%[3, 1, 2]", "ArrayTuple::[Int]()", "%[1]", "%[5, 5, 5]"],
+    "Std::HashMap": ["{1 => 2, 3 => 4}", "{1 => 1}"],
+    "Std::HashRecord": ["%{1 => 2, 3 => 4}", "%{1 => 1}"],
     "Std::HashSet": ["^[3, 1, 2]", "^[1]"],
-    "Std::ClosedRange": ["(1...4)", "(4...1)"],
-    "Std::OpenRange": ["(1<.<4)"],
-    "Std::LeftOpenRange": ["(1<..4)"],
-    "Std::RightOpenRange": ["(1..<4)"],
-    "Std::BeginlessClosedRange": ["(...4)"],
-    "Std::BeginlessOpenRange": ["(..<4)"],
-    "Std::Regex": ["%/a+/"],
-    "Std::Pair": ["Pair(1, 2)"],
-    "Std::ArrayList::Iterator": ["[3, 1, 2].iter", "ArrayList::[Int]().iter"],
-    "Std::ArrayTuple::Iterator": ["%[3, 1, 2].iter"],
+    "Std::ClosedRange": ["(1...4)", "(4...1)", "(0...0)", "((-3)...3)", "(`a`...`e`)", "(1.0...2.5)"],
+    "Std::OpenRange": ["(1<.<4)", "(1<.<2)", "(`a`<.<`e`)"],
+    "Std::LeftOpenRange": ["(1<..4)", "(4<..1)", "(1.0<..2.5)"],
+    "Std::RightOpenRange": ["(1..<4)", "(1..<1)", "(`a`..<`e`)"],
+    "Std::BeginlessClosedRange": ["(...4)", "(...2.5)"],
+    "Std::BeginlessOpenRange": ["(..<4)", "(..<`e`)"],
+    "Std::Regex": ["%/a+/", "%//", "%/(a)(b)?/", "%/^x$/"],
+    "Std::Pair": ["Pair(1, 2)", "Pair(1, 1)", 'Pair("a", nil)'],
+    "Std::ArrayList::Iterator": ["[3, 1, 2].iter", "ArrayList::[Int]().iter", "[1].iter"],
+    "Std::ArrayTuple::Iterator": ["%[3, 1, 2].iter", "%[1].iter"],
     "Std::HashMap::Iterator": ["{1 => 2}.iter"],
     "Std::HashRecord::Iterator": ["%{1 => 2}.iter"],
-    "Std::HashSet::Iterator": ["^[3, 1, 2].iter"],
-    "Std::ClosedRange::Iterator": ["(1...4).iter", "(4...1).iter"],
-    "Std::OpenRange::Iterator": ["(1<.<4).iter"],
+    "Std::HashSet::Iterator": ["^[3, 1, 2].iter", "^[1].iter"],
+    "Std::ClosedRange::Iterator": ["(1...4).iter", "(4...1).iter", "(0...0).iter"],
+    "Std::OpenRange::Iterator": ["(1<.<4).iter", "(1<.<2).iter"],
     "Std::LeftOpenRange::Iterator": ["(1<..4).iter"],
-    "Std::RightOpenRange::Iterator": ["(1..<4).iter"],
-    "Std::Int::Iterator": ["3.iter"],
-    "Std::String::CharIterator": ['"abc".iter'],
-    "Std::String::ByteIterator": ['"abc".byte_iter'],
+    "Std::RightOpenRange::Iterator": ["(1..<4).iter", "(1..<1).iter"],
+    "Std::Int::Iterator": ["3.iter", "0.iter", "(-2).iter"],
+    "Std::String::CharIterator": ['"abc".iter', '"".iter'],
+    "Std::String::ByteIterator": ['"abc".byte_iter', '"".byte_iter'],
     "Std::String::GraphemeIterator": ['"abc".grapheme_iter'],
-    "Std::Date": ["Date(2024, 2, 29)"],
-    "Std::Time": ["Time(13, 5, 7)"],
-    "Std::DateTime": ["DateTime(2024, 2, 29, 13, 5, 7)"],
-    "Std::Date::Span": ["Date::Span(1, 2, 3)"],
-    "Std::Time::Span": ["Time::Span(1, 2, 3)"],
-    "Std::DateTime::Span": ["DateTime::Span(1, 2, 3)"],
-    "Std::Timezone": ["Timezone::UTC"],
-    "Std::FS::Path": ['FS::Path("a/b.txt")'],
+    "Std::Date": ["Date(2024, 2, 29)", "Date(1970, 1, 1)", "Date(2023, 12, 31)", "Date(1, 1, 1)"],
+    "Std::Time": ["Time(13, 5, 7)", "Time(0, 0, 0)", "Time(23, 59, 59)", "Time(12, 0, 0, 1, 2, 3)"],
+    "Std::DateTime": ["DateTime(2024, 2, 29, 13, 5, 7)", "DateTime(1970, 1, 1)", "DateTime(2023, 12, 31, 23, 59, 59)", "DateTime(1, 1, 1)"],
+    "Std::Date::Span": ["Date::Span(1, 2, 3)", "Date::Span(0, 6, 10)", "Date::Span(0, 0, 0)", "Date::Span(-1, -2, -3)",
+                        "Date::Span(0, -6, 9)", "Date::Span(2, 4, 8)", "Date::Span(0, 0, 7)"],
+    "Std::Time::Span": ["Time::Span(1, 2, 3)", "Time::Span(0, 0, 0)", "Time::Span(-1, -2, -3)", "Time::Span(2, 4, 6)",
+                        "Time::Span(0, 0, 0, 0, 0, 1)", "Time::Span(25, 61, 61)", "Time::Span(1, -30, 0)"],
+    "Std::DateTime::Span": ["DateTime::Span(1, 2, 3)", "DateTime::Span(0, 6, 10, 2, 4, 6)", "DateTime::Span()",
+                            "DateTime::Span(-1, -2, -3, -4, -5, -6)", "DateTime::Span(0, 0, 0, 1, 2, 3)", "DateTime::Span(1, -2, 3, -4, 5, -6)"],
+    "Std::Timezone": ["Timezone::UTC", "Timezone.from_offset(Time::Span(2))"],
+    "Std::FS::Path": ['FS::Path("a/b.txt")', 'FS::Path("")'],
     "Std::Box": ["Box(1)"],
     "Std::ImmutableBox": ["ImmutableBox(1)"],
-    "Std::Error": ['Error("x")'],
-    "Std::String::Position": ["String::Position(1, 2, 3)"],
+    "Std::Error": ['Error("x")', 'Error("")'],
+    "Std::String::Position": ["String::Position(1, 2, 3)", "String::Position(0, 1, 1)"],
+    "Std::String::Span": ["String::Span(String::Position(0, 1, 1), String::Position(4, 1, 5))"],
     "Std::Object": ["Object()"],
     # singleton / module receivers (class methods)
     "&Std::Date": ["::Std::Date"], "&Std::Time": ["::Std::Time"], "&Std::DateTime": ["::Std::DateTime"],
     "&Std::Date::Span": ["::Std::Date::Span"], "&Std::Time::Span": ["::Std::Time::Span"],
     "&Std::DateTime::Span": ["::Std::DateTime::Span"], "&Std::FS::Path": ["::Std::FS::Path"],
-    "&Std::Runtime": ["::Std::Runtime"], "&Std::Result": ["::Std::Result"],
+    "&Std::Runtime": ["::Std::Runtime"], "&Std::Result": ["::Std::Result"], "&Std::Timezone": ["::Std::Timezone"],
 }
+for _c, (_s, _hi, _sg) in FIXED.items():
+    RECV[_c] = ["5" + _s, "0" + _s, "1" + _s, "%d%s" % (_hi, _s)] + (["(-3%s)" % _s, "(-%d%s)" % (_hi, _s)] if _sg else [])
+for _e in ("Std::FormatError", "Std::IndexError", "Std::OutOfRangeError", "Std::TypeError", "Std::ZeroDivisionError", "Std::GlobError",
+           "Std::FileSystemError", "Std::InvalidTimezoneError", "Std::OpenClosureError"):
+    RECV[_e] = ['%s("x")' % _e.replace("Std::", "::Std::", 1)]
+
 # element type of the receiver (what the type parameters Val / Key / Value / Element stand for)
 CHAR_ELEM = {"Std::String::CharIterator", "Std::String::GraphemeIterator", "Std::String"}
 BYTE_ELEM = {"Std::String::ByteIterator"}
-# never executed: blocking, process-wide effects, or unbounded work with the small arguments used here
+# never executed: blocking, process-wide effects, or unbounded work
 SKIP_METHODS = {"sleep", "exit", "gets", "readln", "print", "println", "puts", "breakpoint", "loop", "await", "await_sync",
                 "lock", "unlock", "read_lock", "read_unlock", "wait", "++", "--", "hash", "local=", "cycle", "repeat"}
+# receivers on which an Int argument is a count / size / shift: huge Ints would only measure memory
+NUMERIC_RECV = {"Std::Int", "Std::Float", "Std::BigFloat", "Std::Float64", "Std::Float32", "Std::Date::Span", "Std::Time::Span",
+                "Std::DateTime::Span", "Std::Date", "Std::Time", "Std::DateTime"} | set(FIXED)
+SMALL_ONLY_OPS = {"**", "<<", ">>", "<<<", ">>>", "times", "iter"}
 
+# legacy literal catalogue for parameter types that cannot be written in source (type parameters) or are structural
 ARGS = {
-    "any": ["1", '"ab"', "nil"], "Std::Int": ["2", "0", "(-1)", "1"], "Std::AnyInt": ["1", "0", "2i8"],
-    "Std::String": ['"ab"', '""'], "Std::CoercibleNumeric": ["2", "2.5"], "Std::Float": ["2.5"], "Std::BigFloat": ["2.5bf"],
-    "Std::Int8": ["2i8"], "Std::Int16": ["2i16"], "Std::Int32": ["2i32"], "Std::Int64": ["2i64"],
-    "Std::UInt8": ["2u8"], "Std::UInt16": ["2u16"], "Std::UInt32": ["2u32"], "Std::UInt64": ["2u64"], "Std::UInt": ["2u"],
-    "Std::Float32": ["2.5f32"], "Std::Float64": ["2.5f64"],
-    "Std::String | Std::Char": ['"a"', "`a`"], "Std::Char": ["`a`"], "Std::Symbol": [":a"],
-    "Std::Range[Std::Int]": ["(0...1)", "(0..<1)"], "Std::Tuple[V]": ["%[1, 2]", "[1]"], "Std::ImmutableSet[V]": ["^[1, 2]"],
-    "Std::Record[K, V]": ["%{1 => 2}"], "bool": ["true", "false"], "Std::Bool": ["true", "false"], "Std::Regex": ["%/a/"],
-    "Std::String::Convertible": ['"a"', "1"], "Std::Time::Span": ["Time::Span(1, 2, 3)"], "Std::Date::Span": ["Date::Span(1, 2, 3)"],
-    "Std::DateTime::Span": ["DateTime::Span(1, 2, 3)"], "Std::DateTime": ["DateTime(2024, 2, 29, 13, 5, 7)"],
-    "Std::Date": ["Date(2024, 2, 29)"], "Std::Time": ["Time(13, 5, 7)"], "Std::Date | Std::DateTime": ["Date(2024, 2, 29)"],
-    "Std::DateTime | Std::Date": ["Date(2024, 2, 29)"], "Std::Date::Span | Std::DateTime::Span": ["Date::Span(1, 2, 3)"],
-    "Std::Timezone": ["Timezone::UTC"], "Std::FS::Path": ['FS::Path("c")'], "Std::Duration": ["Time::Span(1, 2, 3)"],
-    "Std::String::Position": ["String::Position(1, 2, 3)"],
+    "Std::Tuple[V]": ["%[1, 2]", "[1]", "ArrayTuple::[Int]()"], "Std::ImmutableSet[V]": ["^[1, 2]", "^[1]"],
+    "Std::Record[K, V]": ["%{1 => 2}", "{1 => 2}"],
+    "Std::String::Convertible": ['"a"', "1", "`a`", "2.5", ":a"],
 }
-TYPE_PARAMS = {"V", "I", "T", "Val", "Key", "Value", "K", "Element", "E"}
+TYPE_PARAMS = {"V", "I", "T", "Val", "Key", "Value", "K", "Element", "E", "V1", "V2", "E1", "E2"}
+WORD = re.compile(r"[A-Za-z_][A-Za-z0-9_]*(?:::[A-Za-z_][A-Za-z0-9_]*)*")
 
 
-def elem_expr(ns, which="Val"):
+def writable(t):
+    """can the declared parameter type be written as the type of a local of a top-level program?"""
+    if not t or t.startswith("|") or "%" in t or "&" in t or "^" in t or "!" in t:
+        return False
+    for w in WORD.findall(t):
+        if w in ("any", "bool", "nil", "true", "false"):
+            continue
+        if not w.startswith("Std::") or w.split("::")[-1] in TYPE_PARAMS:
+            return False
+    return True
+
+
+def elem_exprs(ns):
     if ns in CHAR_ELEM:
-        return "`a`"
+        return ["`a`", "`z`"]
     if ns in BYTE_ELEM:
-        return "97u8"
-    return "1"
+        return ["97u8", "0u8"]
+    return ["1", "3", "0", "99"]
 
 
 def closure_arg(t, ns):
@@ -184,41 +257,89 @@ def closure_arg(t, ns):
     names = ["a", "b", "c", "d"][:len(params)]
     ret = m.group(2).strip()
     if ret in ("bool", "Std::Bool"):
-        body = "true"
+        bodies = ["true", "false"]
     elif ret == "void":
-        body = "nil"
+        bodies = ["nil"]
     elif ret in TYPE_PARAMS or ret == "any":
-        body = names[0] if names else "1"
+        bodies = [names[0] if names else "1"]
     elif ret.startswith("Std::Pair["):
-        body = "Pair(1, 2)"
+        bodies = ["Pair(1, 2)"]
     else:
         return None
     if not names:
-        return "-> " + body
-    return "|%s| -> %s" % (", ".join(names), body)
+        return ["-> " + b for b in bodies]
+    return ["|%s| -> %s" % (", ".join(names), b) for b in bodies]
 
 
-def arg_exprs(t, ns):
-    if t in ARGS:
-        return ARGS[t]
-    if t in TYPE_PARAMS:
-        return [elem_expr(ns)]
-    if t.startswith("|"):
-        c = closure_arg(t, ns)
-        return [c] if c else None
-    if t in ("Std::ArrayList[Val]", "Std::List[Val]"):
-        return ["[1]"]
-    if t == "Std::ArrayTuple[Val]":
-        return ["%[1]"]
-    if t == "Std::HashSet[Val]":
-        return ["^[1]"]
-    if t == "Std::HashMap[Key, Value]":
-        return ["{1 => 2}"]
-    if t == "Std::HashRecord[Key, Value]":
-        return ["%{1 => 2}"]
-    if t == "Std::Pair[Key, Value]":
-        return ["Pair(1, 2)"]
-    return None
+class Choice:
+    __slots__ = ("expr", "typ", "core", "cls")
+
+    def __init__(self, expr, typ, core, cls):
+        self.expr, self.typ, self.core, self.cls = expr, typ, core, cls   # typ: declared type of the local, None = literal form
+
+
+def pool_classes(tset, tab):
+    """catalogue classes that are members of the declared parameter type (by name or through a type-level ancestor)"""
+    names = set(tset.split(","))
+    out = []
+    for c in POOL:
+        if c in names or (set(tab.anc.get(c, [])) & names):
+            out.append(c)
+    if "Std::Bool" in names:
+        out += [c for c in ("Std::True", "Std::False") if c not in out]
+    return out
+
+
+def param_choices(r, p, tab, tier_all):
+    """all argument choices of one declared parameter: for a writable declared type T every value of every member class
+    both as `var a: T = v` (so that the overload declared with T is the one selected) and as a literal"""
+    pt = p[2]
+    tset = p[3] if len(p) > 3 else "*"
+    ns = r["ns"]
+    base = r["name"].split("@")[0]
+    if pt in TYPE_PARAMS:
+        return [Choice(e, None, i < 2, "elem") for i, e in enumerate(elem_exprs(ns))]
+    if pt.startswith("|"):
+        c = closure_arg(pt, ns)
+        return [Choice(e, None, True, "closure") for e in c] if c else None
+    if not writable(pt):
+        lit = ARGS.get(pt)
+        if lit is None:
+            if pt in ("Std::ArrayList[Val]", "Std::List[Val]"):
+                lit = ["[1]", "ArrayList::[Int]()", "[3, 1, 2]"]
+            elif pt == "Std::ArrayTuple[Val]":
+                lit = ["%[1]", "ArrayTuple::[Int]()"]
+            elif pt == "Std::HashSet[Val]":
+                lit = ["^[1]", "^[1, 2, 3]"]
+            elif pt == "Std::HashMap[Key, Value]":
+                lit = ["{1 => 2}"]
+            elif pt == "Std::HashRecord[Key, Value]":
+                lit = ["%{1 => 2}"]
+            elif pt == "Std::Pair[Key, Value]":
+                lit = ["Pair(1, 2)"]
+        return [Choice(e, None, i < 2, "lit") for i, e in enumerate(lit)] if lit else None
+    vals = []   # (expr, core, cls)
+    if tset == "*":
+        for i, e in enumerate(ARGS.get(pt, []) + MIXED):
+            if all(e != v[0] for v in vals):
+                vals.append((e, i < 6, "mixed"))
+    else:
+        small_only = ns.lstrip("&") not in NUMERIC_RECV or base in SMALL_ONLY_OPS or r["name"] == "#init" and ns not in NUMERIC_RECV
+        for c in pool_classes(tset, tab):
+            core, ext = POOL[c]
+            for e in core:
+                vals.append((e, True, c))
+            for e in ext:
+                if small_only and (e in HUGE_INTS or e in ("1e300", "1e100bf")):
+                    continue
+                vals.append((e, False, c))
+    if not vals:
+        return None
+    out = []
+    for (e, core, c) in vals:
+        out.append(Choice(e, pt, core, c))
+        out.append(Choice(e, None, core, c))
+    return out
 
 
 BINOPS = {"+", "-", "*", "/", "%", "**", "==", "!=", "=~", "!~", "===", "!==", "<", "<=", ">", ">=", "<=>", "<<", ">>", "<<<", ">>>",
@@ -247,9 +368,49 @@ def call_expr(r, recv, args):
     return "(%s).%s(%s)" % (recv, name, ", ".join(args))
 
 
-def gen_calls(tab, rng, per_row, only=None):
-    """-> list of dict(row, expr, argc, void) ; skipped: counter by reason"""
+NO_PROBE_NS = ("Std::Sync", "Std::Channel", "Std::ReadChannel", "Std::WriteChannel", "Std::Thread", "Std::ThreadPool", "Std::Promise",
+               "Std::Generator", "Std::FS", "Std::Kernel", "Std::Elk", "Std::Aborter")
+CHEAP_RET = {"Std::Int", "bool", "Std::Bool", "Std::String", "Std::Float", "Std::Symbol", "Std::Char"}
+
+
+def build_probes(tab):
+    """class C -> name of one cheap method declared by C itself (not inherited), natively implemented, callable with no
+    arguments: invoked on the result of every call whose declared return type is exactly C.  The call is statically bound,
+    so a result of another class is reached by C's native code."""
+    cands = {}
+    for r in tab.rows:
+        ns = r["ns"]
+        if r["kind"] != "own" or r["nskind"] != "class" or not r["found"] or r["rkind"] != "native" or r["req"] != 0:
+            continue
+        if not compatible(r) or any(f in r["flags"] for f in "aygmov") or r["declin"] not in ("", ns):
+            continue
+        if any(ns == n or ns.startswith(n + "::") for n in NO_PROBE_NS):
+            continue
+        name = r["name"]
+        if name in SKIP_METHODS or not re.match(r"^[a-z_][a-zA-Z0-9_]*$", name) or r["retset"] in ("void", "never"):
+            continue
+        if name in ("iter", "copy", "class", "inspect", "to_string", "close", "clear", "pop", "shift", "run", "start", "stop", "join", "next", "reset"):
+            continue
+        cands.setdefault(ns, []).append((0 if r["ret"] in CHEAP_RET else 1, name))
+    return {ns: sorted(v)[0][1] for ns, v in cands.items()}
+
+
+def probe_for(r, probes):
+    rs = r["retset"]
+    if r["name"] == "#init" or "," in rs or rs not in probes:
+        return None
+    if r["ret"] != rs and not r["ret"].startswith(rs + "["):
+        return None
+    return probes[rs]
+
+
+def gen_calls(tab, rng, thorough, only=None, probes=None, typing=None):
+    """-> list of dict(row, expr, pre, argc, void, probe) ; skipped: counter by reason.
+    typing: dict (type, expr) -> bool from the typing pre-pass (None = collect every typed pair into the returned set)"""
     calls, skipped = [], {}
+    wanted = set()
+    probes = probes or {}
+    CAP = 300
 
     def skip(why):
         skipped[why] = skipped.get(why, 0) + 1
@@ -272,17 +433,29 @@ def gen_calls(tab, rng, per_row, only=None):
             continue
         pos = [p for p in r["plist"] if p[1] in ("n", "o")]
         restp = [p for p in r["plist"] if p[1] == "r"]
+        has_closure = any(p[2].startswith("|") for p in r["plist"])
+        if has_closure or base in SMALL_ONLY_OPS or r["kind"] == "inh":
+            recvs = [x for x in recvs if x not in HUGE_INTS] or recvs
         choices = []
         ok = True
-        for (pn, pk, pt) in pos + restp:
-            xs = arg_exprs(pt, ns)
+        for p in pos + restp:
+            xs = param_choices(r, p, tab, thorough)
+            if xs and typing is not None:
+                xs = [c for c in xs if c.typ is None or typing.get((c.typ, c.expr), False)]
             if not xs:
                 ok = False
                 skip("no-argument-generator")
                 break
+            if typing is None:
+                wanted.update((c.typ, c.expr) for c in xs if c.typ is not None)
             choices.append(xs)
-        if not ok:
+        if not ok or typing is None:
             continue
+        overloaded = "o" in r["flags"]
+        if overloaded:   # a literal argument selects the specialised overload `name@k`, which is a row of its own
+            choices = [([c for c in xs if c.typ is not None] or xs) for xs in choices]
+        probe = probe_for(r, probes)
+        void = (r["retset"] == "void" and r["name"] != "#init") or r["name"] == "[]="
         counts = list(range(r["req"], r["req"] + r["opt"] + 1))
         variants = []
         for argc in counts:
@@ -290,71 +463,185 @@ def gen_calls(tab, rng, per_row, only=None):
             if restp and argc == r["req"] + r["opt"]:
                 variants.append((argc, 2))
         for (argc, nrest) in variants:
-            for v in range(per_row):
-                recv = recvs[(v + rng.below(len(recvs))) % len(recvs)]
-                args = [choices[i][(v + rng.below(len(choices[i]))) % len(choices[i])] for i in range(argc)]
-                if restp:
-                    if r["post"]:
-                        break
-                    args += [choices[-1][0]] * nrest
-                e = call_expr(r, recv, args)
+            if restp and r["post"]:
+                break
+            plans = []   # (recv, [Choice...])
+            per = []
+            for i in range(argc):
+                # one value -> one form in the one-factor plan: the declared-type local when the method has overloads (the literal
+                # would select the specialised overload, which has its own row), otherwise seeded
+                typed = [c for c in choices[i] if c.typ is not None]
+                lit = [c for c in choices[i] if c.typ is None]
+                per.append((typed, lit))
+            if thorough:
+                axes = [recvs] + [choices[i] for i in range(argc)]
+                total = 1
+                for a in axes:
+                    total *= len(a)
+                if total <= CAP:
+                    idx = [0] * len(axes)
+                    while True:
+                        plans.append((axes[0][idx[0]], [axes[k + 1][idx[k + 1]] for k in range(argc)]))
+                        k = len(axes) - 1
+                        while k >= 0:
+                            idx[k] += 1
+                            if idx[k] < len(axes[k]):
+                                break
+                            idx[k] = 0
+                            k -= 1
+                        if k < 0:
+                            break
+                else:
+                    n1 = max(len(a) for a in axes)
+                    offs = [rng.below(len(a)) for a in axes]
+                    for j in range(n1):
+                        plans.append((axes[0][(j + offs[0]) % len(axes[0])], [axes[k + 1][(j + offs[k + 1]) % len(axes[k + 1])] for k in range(argc)]))
+                    for j in range(CAP - n1):
+                        plans.append((axes[0][rng.below(len(axes[0]))], [axes[k + 1][rng.below(len(axes[k + 1]))] for k in range(argc)]))
+            else:
+                cores = []
+                for i in range(argc):
+                    typed, lit = per[i]
+                    if typed and (overloaded or not lit):
+                        pick = [c for c in typed if c.core]
+                    elif typed:
+                        tl = {c.expr: c for c in typed}
+                        pick = [(tl[c.expr] if (c.expr in tl and rng.below(2) == 0) else c) for c in lit if c.core]
+                    else:
+                        pick = [c for c in lit if c.core]
+                    cores.append(pick or choices[i][:1])
+                n1 = max([1] + [len(c) for c in cores])
+                roff = rng.below(len(recvs))
+                offs = [rng.below(len(c)) for c in cores]
+                for j in range(n1):
+                    plans.append((recvs[(j + roff) % len(recvs)], [cores[i][(j + offs[i]) % len(cores[i])] for i in range(argc)]))
+                for j in range(2 if argc else 1):   # seeded picks from the whole catalogue
+                    plans.append((recvs[rng.below(len(recvs))], [choices[i][rng.below(len(choices[i]))] for i in range(argc)]))
+            for (recv, cs) in plans:
+                pre, args = [], []
+                for k, c in enumerate(cs):
+                    if c.typ is None:
+                        args.append(c.expr)
+                    else:
+                        pre.append((k, c.typ, c.expr))
+                        args.append("\x00%d" % k)
+                rest_args = [choices[-1][0].expr] * nrest if restp else []
+                e = call_expr(r, recv, args + rest_args)
                 if e is None:
                     skip("no-call-syntax")
                     break
-                void = (r["retset"] == "void" and r["name"] != "#init") or r["name"] == "[]="
-                calls.append(dict(row=r, expr=e, argc=argc + nrest, void=void))
-    # dedupe identical expressions of the same row
+                calls.append(dict(row=r, expr=e, pre=pre, argc=argc + nrest, void=void, probe=None if void else probe,
+                                  argcls=",".join(c.cls for c in cs)))
+    if typing is None:
+        return wanted, skipped
+    # dedupe identical calls of the same row
     seen, out = set(), []
     for c in calls:
-        k = (c["row"]["idx"], c["expr"])
+        k = (c["row"]["idx"], c["expr"], tuple(c["pre"]))
         if k not in seen:
             seen.add(k)
             out.append(c)
     return out, skipped
 
 
-CASE = """println("B\\t%(id)s")
-do
-  var r: any = %(expr)s
-  switch r
-  case Value() as v
-    println("R\\t%(id)s\\t" + v.class.name)
-  end
-catch Value() as e
-  println("E\\t%(id)s\\t" + e.class.name)
-end
-"""
-CASE_VOID = """println("B\\t%(id)s")
-do
-  %(expr)s
-  println("R\\t%(id)s\\tvoid")
-catch Value() as e
-  println("E\\t%(id)s\\t" + e.class.name)
-end
-#
-#
-#
-"""
-CASE_LINES = 10
+def typing_prepass(elk, pairs, workdir):
+    """which `var a: T = v` declarations does the checker accept?  one declaration per line, rejected lines are read off the
+    diagnostics; repeated on the accepted ones until the program compiles"""
+    pairs = sorted(pairs)
+    ok = {p: True for p in pairs}
+    for attempt in range(4):
+        live = [p for p in pairs if ok[p]]
+        if not live:
+            break
+        src = "".join("var t%d: %s = %s\n" % (i, t, e) for i, (t, e) in enumerate(live))
+        res = vlib.run_programs(elk, [("typing%d" % attempt, src)], workdir, workers=1, timeout=300)
+        rc, out, cls = res["typing%d" % attempt]
+        bad = set(int(m.group(1)) - 1 for m in re.finditer(r"\.elk:(\d+):\d+", out))
+        if not bad:
+            if cls != "ok":
+                return None, out[-600:]
+            break
+        for k in bad:
+            if 0 <= k < len(live):
+                ok[live[k]] = False
+    return ok, ""
+
+
+def case_src(c):
+    """source of one call; the locals declared with the declared parameter types get call-unique names"""
+    cid = c["id"]
+    expr = c["expr"]
+    lines = ['println("B\\t%s")' % cid, "do"]
+    for (k, t, e) in c.get("pre") or []:
+        lines.append("  var a%s_%d: %s = %s" % (cid, k, t, e))
+        expr = expr.replace("\x00%d" % k, "a%s_%d" % (cid, k))
+    for pl in c.get("prelude") or []:
+        lines.append("  " + pl)
+    if c["void"]:
+        lines += ["  " + expr, '  println("R\\t%s\\tvoid")' % cid]
+    elif c.get("probe"):
+        lines += ["  r%s := %s" % (cid, expr),
+                  "  var q%s: any = r%s" % (cid, cid),
+                  "  switch q%s" % cid,
+                  "  case Value() as v",
+                  '    println("R\\t%s\\t" + v.class.name)' % cid,
+                  "  end",
+                  "  do",
+                  "    r%s.%s()" % (cid, c["probe"]),
+                  '    println("P\\t%s\\tok")' % cid,
+                  "  catch Value() as e2",
+                  '    println("P\\t%s\\tthrew " + e2.class.name)' % cid,
+                  "  end"]
+    else:
+        lines += ["  var r: any = " + expr,
+                  "  switch r",
+                  "  case Value() as v",
+                  '    println("R\\t%s\\t" + v.class.name)' % cid,
+                  "  end"]
+    lines += ["catch Value() as e", '  println("E\\t%s\\t" + e.class.name)' % cid, "end"]
+    return "\n".join(lines) + "\n"
+
+
+def shown(c):
+    """the call as text (for messages and samples)"""
+    e = c["expr"]
+    pre = []
+    for (k, t, v) in c.get("pre") or []:
+        e = e.replace("\x00%d" % k, "a%d" % k)
+        pre.append("var a%d: %s = %s" % (k, t, v))
+    pre += list(c.get("prelude") or [])
+    return "; ".join(pre + [e])
 
 
 def program(chunk):
-    src = []
+    src, starts, line = [], [], 1
     for c in chunk:
-        src.append((CASE_VOID if c["void"] else CASE) % dict(id=c["id"], expr=c["expr"]))
-    return "".join(src)
+        s = case_src(c)
+        starts.append(line)
+        line += s.count("\n")
+        src.append(s)
+    return "".join(src), starts
+
+
+CRASH = ("go_panic", "go_fatal", "timeout", "signal")
 
 
 def run_chunks(elk, chunks, workdir, tag):
-    """run programs; drop calls the checker rejects (ill-typed generator output), resume after a crash.
-    returns {call id: (kind, detail)} with kind in R E panic fatal timeout rejected lost"""
-    results = {}
+    """run programs; drop calls the checker rejects (ill-typed generator output; a call rejected WITH its result probe is
+    retried without it), resume after a crash.
+    returns ({call id: (kind, detail)}, {call id: (kind, detail)} for the probes) with kind in R E panic fatal timeout rejected lost"""
+    import bisect
+    results, presults = {}, {}
     pending = [(("%s%d" % (tag, i)), ch) for i, ch in enumerate(chunks)]
     rounds = 0
     while pending and rounds < 400:
         rounds += 1
-        progs = [(pid, program(ch)) for pid, ch in pending]
-        res = vlib.run_programs(elk, progs, workdir, workers=12, timeout=120)
+        progs, starts = [], {}
+        for pid, ch in pending:
+            src, st = program(ch)
+            progs.append((pid, src))
+            starts[pid] = st
+        res = vlib.run_programs(elk, progs, workdir, workers=12, timeout=90)
         nxt = []
         for pid, ch in pending:
             rc, out, cls = res[pid]
@@ -365,12 +652,14 @@ def run_chunks(elk, chunks, workdir, tag):
                     seen_b.append(p[1])
                 elif p[0] in ("R", "E") and len(p) >= 3:
                     results[p[1]] = (p[0], p[2])
+                elif p[0] == "P" and len(p) >= 3:
+                    presults[p[1]] = ("ok", p[2])
             ids = [c["id"] for c in ch]
             if not seen_b and ("[FAIL]" in out or cls == "elk_error"):
                 # compile-time rejection: map diagnostics lines to calls
                 bad = set()
                 for m in re.finditer(r"\.elk:(\d+):\d+", out):
-                    k = (int(m.group(1)) - 1) // CASE_LINES
+                    k = bisect.bisect_right(starts[pid], int(m.group(1))) - 1
                     if 0 <= k < len(ch):
                         bad.add(k)
                 if not bad:
@@ -382,13 +671,21 @@ def run_chunks(elk, chunks, workdir, tag):
                         nxt.append((pid + "b", ch[h:]))
                         continue
                 msg = re.sub(r"\s+", " ", out)[:300]
-                for k in bad:
-                    results[ch[k]["id"]] = ("rejected", msg)
-                rest = [c for i, c in enumerate(ch) if i not in bad]
+                rest = []
+                for i, c in enumerate(ch):
+                    if i in bad:
+                        if c.get("probe"):
+                            c["probe"] = None
+                            c["probe_dropped"] = True
+                            rest.append(c)
+                        else:
+                            results[c["id"]] = ("rejected", msg)
+                    else:
+                        rest.append(c)
                 if rest:
                     nxt.append((pid + "r", rest))
                 continue
-            if not seen_b and cls in ("go_panic", "go_fatal", "timeout", "signal"):
+            if not seen_b and cls in CRASH:
                 # the front end itself crashed or hung (not this property): isolate and drop the call
                 if len(ch) == 1:
                     results[ch[0]["id"]] = ("rejected", "front end %s: %s" % (cls, re.sub(r"\s+", " ", out)[:300]))
@@ -397,22 +694,29 @@ def run_chunks(elk, chunks, workdir, tag):
                     nxt.append((pid + "a", ch[:h]))
                     nxt.append((pid + "b", ch[h:]))
                 continue
-            if cls in ("go_panic", "go_fatal", "timeout", "signal") or (seen_b and seen_b[-1] not in results):
-                last = seen_b[-1] if seen_b else None
-                if last is not None and last not in results:
-                    kind = {"go_panic": "panic", "go_fatal": "fatal", "timeout": "timeout"}.get(cls, "panic" if "panic" in out else "lost")
-                    m = re.search(r"(panic: .*|fatal error: .*)", out)
-                    results[last] = (kind, (m.group(1) if m else out[-300:])[:400])
-                    k = ids.index(last)
-                    rest = ch[k + 1:]
-                    if rest:
-                        nxt.append((pid + "c", rest))
-                elif last is None and cls != "ok":
+            last = seen_b[-1] if seen_b else None
+            if last is None:
+                if cls != "ok":
                     for c in ch:
                         results.setdefault(c["id"], ("lost", out[-300:]))
                 continue
+            k = ids.index(last) if last in ids else len(ch) - 1
+            lastc = ch[k]
+            crashed = cls in CRASH or last not in results or k < len(ch) - 1
+            if not crashed:
+                continue
+            kind = {"go_panic": "panic", "go_fatal": "fatal", "timeout": "timeout"}.get(cls, "panic" if "panic" in out else "lost")
+            m = re.search(r"(panic: .*|fatal error: .*)", out)
+            detail = (m.group(1) if m else out[-300:])[:400]
+            if last not in results:
+                results[last] = (kind, detail)
+            elif results[last][0] == "R" and lastc.get("probe") and last not in presults:
+                presults[last] = (kind, detail)
+            rest = ch[k + 1:]
+            if rest:
+                nxt.append((pid + "c", rest))
         pending = nxt
-    return results
+    return results, presults
 
 
 def member(cls, tset, tab, selfns):
@@ -442,16 +746,26 @@ def panic_class(detail):
 def stream_calls(ctx, tab, elk, bad_rows, only_keys=None):
     stream = "c28.calls"
     rng = ctx.rng(stream)
+    thorough = not ctx.quick()
+    workdir = os.path.join(ctx.workdir, "calls")
     checked = set()
     for r in tab.rows:
         for c in r["throwset"].split(","):
             if c not in ("never", "*", "void", "self", ""):
                 checked.add(c)
+    probes = build_probes(tab)
+    # which (declared parameter type, value) pairs does the checker accept as `var a: T = v`
+    wanted, _ = gen_calls(tab, rng, thorough, typing=None)
+    typing, terr = typing_prepass(elk, wanted, workdir)
+    if typing is None:
+        ctx.broke("c28.calls: the typing pre-pass program (declared-type locals) neither compiled nor named a rejected line", terr)
+        typing = {}
     # rows the table already rejects are executed once per class (confirmation), the others are sampled
     good = [r["idx"] for r in tab.rows if r["idx"] not in bad_rows and r["found"] and (only_keys is None or r["key"] in only_keys)]
-    calls, skipped = gen_calls(tab, rng, ctx.n(1, 3), only=set(good))
-    budget = ctx.n(1500, 10 ** 9)
+    calls, skipped = gen_calls(tab, rng, thorough, only=set(good), probes=probes, typing=typing)
+    budget = ctx.n(QUICK_BUDGET, 10 ** 9)
     # corpus (past failures) first: lines `row-key` (all generated calls of that row) or `row-key<TAB>expression`
+    # (an expression may be preceded by declarations: `var d: Std::CoercibleNumeric = 1 ;; (recv) / d`)
     corpus, explicit = [], {}
     cpath = os.path.join(vlib.ROOT, "corpus", "C28.calls.txt")
     if os.path.exists(cpath):
@@ -462,6 +776,12 @@ def stream_calls(ctx, tab, elk, bad_rows, only_keys=None):
                 corpus.append(p[0])
                 if len(p) > 1:
                     explicit.setdefault(p[0], []).append(p[1])
+
+    def explicit_call(r, text):
+        parts = [x.strip() for x in text.split(";;")]
+        void = (r["retset"] == "void" and r["name"] != "#init")
+        return dict(row=r, expr=parts[-1], prelude=parts[:-1], pre=[], argc=-1, void=void,
+                    probe=None if void else probe_for(r, probes), argcls="corpus")
     rowbykey = {r["key"]: r for r in tab.rows}
     byrow = {}
     for c in calls:
@@ -472,13 +792,26 @@ def stream_calls(ctx, tab, elk, bad_rows, only_keys=None):
         if r is None or r["idx"] in bad_rows:
             continue
         for e in explicit.pop(k, []):
-            chosen.append(dict(row=r, expr=e, argc=-1, void=(r["retset"] == "void" and r["name"] != "#init")))
-        chosen += byrow.pop(k, [])
+            chosen.append(explicit_call(r, e))
+        if thorough:
+            chosen += byrow.pop(k, [])
     n_corpus = len(chosen)
     rest = [c for k in sorted(byrow) for c in byrow[k]]
+    n_generated = len(rest)
+    dropped_rows = 0
     if len(rest) + len(chosen) > budget:
-        rng.shuffle(rest)
-        rest = rest[:max(0, budget - len(chosen))]
+        # over budget (quick tier only): the rows WITH parameters keep their whole one-factor plan, the parameterless rows are
+        # sampled from the seed
+        withp = [c for c in rest if c["argc"] > 0]
+        nop = [c for c in rest if c["argc"] <= 0]
+        rng.shuffle(nop)
+        room = max(0, budget - len(chosen) - len(withp))
+        dropped_rows = len(set(c["row"]["key"] for c in nop[room:]) - set(c["row"]["key"] for c in nop[:room]))
+        rest = withp + nop[:room]
+        if len(rest) + len(chosen) > budget:
+            rng.shuffle(rest)
+            rest = rest[:max(0, budget - len(chosen))]
+    rng.shuffle(rest)    # crashing calls (known findings) end up in different programs, so their resumptions run in parallel
     chosen += rest
     # confirmation calls for rejected rows: one per class key
     confirm = {}
@@ -487,67 +820,97 @@ def stream_calls(ctx, tab, elk, bad_rows, only_keys=None):
         k = class_key(r, tab)
         if k in confirm:
             continue
-        cs, _ = gen_calls(tab, rng, 1, only={idx})
+        cs, _ = gen_calls(tab, rng, False, only={idx}, probes={}, typing=typing)
         if cs:
             confirm[k] = cs[0]
     for rk, exprs in explicit.items():     # corpus expressions of rows the table rejects: they are the confirmation
         r = rowbykey.get(rk)
         if r is not None and r["idx"] in bad_rows:
-            confirm[class_key(r, tab)] = dict(row=r, expr=exprs[0], argc=-1, void=False)
+            confirm[class_key(r, tab)] = dict(explicit_call(r, exprs[0]), void=False, probe=None)
     conf_list = [confirm[k] for k in sorted(confirm)][:ctx.n(400, 100000)]
     for i, c in enumerate(chosen + conf_list):
         c["id"] = "c%d" % i
     size = 40
     chunks = [chosen[i:i + size] for i in range(0, len(chosen), size)]
-    res = run_chunks(elk, chunks, os.path.join(ctx.workdir, "calls"), "p") if chunks else {}
-    # a crashed call is re-run alone (up to 2 more times) so that a load-dependent crash is not blamed on the method
+    res, pres = run_chunks(elk, chunks, workdir, "p") if chunks else ({}, {})
+    # a crashed call is re-run alone (up to 2 more times) so that a load-dependent crash is not blamed on the method; only the
+    # first crash of a (row, crash class) is re-run, further ones of the same class are taken as they are
+    rerun_seen = set()
+    BADK = ("panic", "fatal", "timeout", "lost")
     for c in chosen:
         k, d = res.get(c["id"], ("lost", ""))
-        if k in ("panic", "fatal", "timeout", "lost"):
+        pk, pd = pres.get(c["id"], ("", ""))
+        if k in BADK or pk in BADK:
+            sig = (c["row"]["key"], k, panic_class(d), pk, panic_class(pd))
+            if sig in rerun_seen:
+                continue
+            rerun_seen.add(sig)
             for attempt in range(2):
-                r2 = run_chunks(elk, [[c]], os.path.join(ctx.workdir, "calls"), "re%s_%d_" % (c["id"], attempt))
+                r2, p2 = run_chunks(elk, [[c]], workdir, "re%s_%d_" % (c["id"], attempt))
                 k2, d2 = r2.get(c["id"], ("lost", ""))
-                if k2 not in ("panic", "fatal", "timeout", "lost"):
+                pk2, pd2 = p2.get(c["id"], ("", ""))
+                if k2 not in BADK and pk2 not in BADK:
                     res[c["id"]] = (k2, d2)
+                    if c["id"] in p2:
+                        pres[c["id"]] = p2[c["id"]]
+                    else:
+                        pres.pop(c["id"], None)
                     c["flaky"] = (k, d)
                     break
-    cres = run_chunks(elk, [[c] for c in conf_list], os.path.join(ctx.workdir, "calls"), "k") if conf_list else {}
+    cres = run_chunks(elk, [[c] for c in conf_list], workdir, "k")[0] if conf_list else {}
     dist, distinct, nfail, samples = {}, set(), 0, []
     throw_report = {}
     flaky = 0
+    nprobed = 0
+    forms = {"declared-type-local": 0, "literal": 0, "no-arguments": 0}
+    rows_run = set()
     for c in chosen:
         r = c["row"]
         kind, detail = res.get(c["id"], ("lost", ""))
         if c.get("flaky"):
             flaky += 1
         dist[kind] = dist.get(kind, 0) + 1
+        if kind != "rejected":
+            rows_run.add(r["key"])
+            forms["declared-type-local" if c.get("pre") else ("literal" if c["argc"] else "no-arguments")] += 1
         decl = r["ns"]      # calls are keyed by the receiver's namespace (the row), not by the declaring mixin
         what = None
+        text = shown(c)
         if kind in ("panic", "fatal"):
             key = "calls:go_%s:%s#%s:%s" % (kind, decl, r["name"], panic_class(detail))
-            what = "%s -> Go %s: %s" % (c["expr"], kind, detail[:200])
+            what = "%s -> Go %s: %s" % (text, kind, detail[:200])
             oracle = "no Go panic / fatal error in a call the checker accepts"
         elif kind == "R":
             distinct.add(r["key"])
             if r["name"] == "#init":
                 if detail != r["ns"]:
                     key = "calls:init-class:%s:got=%s" % (r["ns"], detail)
-                    what = "%s evaluates to an instance of %s" % (c["expr"], detail)
+                    what = "%s evaluates to an instance of %s" % (text, detail)
                     oracle = "a constructor call yields an instance of the class"
             elif detail == "void":
                 pass
             elif detail == "Undefined":
                 key = "calls:return:%s#%s:got=undefined" % (r["declin"] or decl, r["name"])
-                what = "%s returned the internal `undefined` marker, which is not a value of any declared type `%s`" % (c["expr"], r["ret"])
+                what = "%s returned the internal `undefined` marker, which is not a value of any declared type `%s`" % (text, r["ret"])
                 oracle = "runtime class of the result is a member of the declared return type"
             elif r["retset"] == "never":
                 key = "calls:return:%s#%s:declared=never:got=%s" % (decl, r["name"], detail)
-                what = "%s returned a %s but is declared `never`" % (c["expr"], detail)
+                what = "%s returned a %s but is declared `never`" % (text, detail)
                 oracle = "runtime class of the result is a member of the declared return type"
             elif r["retset"] != "void" and not member(detail, r["retset"], tab, r["ns"]):
                 key = "calls:return:%s#%s:declared=%s:got=%s" % (decl, r["name"], r["ret"], detail)
-                what = "%s returned a %s but is declared `%s`" % (c["expr"], detail, r["ret"])
+                what = "%s returned a %s but is declared `%s`" % (text, detail, r["ret"])
                 oracle = "runtime class of the result is a member of the declared return type"
+            if what is None and c.get("probe"):
+                pk, pd = pres.get(c["id"], ("lost", ""))
+                if pk == "ok":
+                    nprobed += 1
+                elif pk in ("panic", "fatal"):
+                    key = "calls:result-probe:go_%s:%s#%s:%s#%s:%s" % (pk, decl, r["name"], r["retset"], c["probe"], panic_class(pd))
+                    what = ("%s returned a %s (declared `%s`), but the statically bound `%s#%s` called on that result ends in a Go %s: %s"
+                            % (text, detail, r["ret"], r["retset"], c["probe"], pk, pd[:200]))
+                    oracle = "the result of a call is usable as an instance of the declared return class (one parameterless native method of that class is called on it)"
+                    kind, detail = "R+probe-" + pk, detail + " / " + pd[:200]
         elif kind == "E":
             distinct.add(r["key"])
             if not member(detail, r["throwset"], tab, r["ns"]):
@@ -555,13 +918,13 @@ def stream_calls(ctx, tab, elk, bad_rows, only_keys=None):
                 if cands & checked:
                     # reported, not gated: Elk marks `unchecked` on the throw statement, not on the class, so the set of
                     # "unchecked runtime errors" cannot be read off the headers
-                    throw_report.setdefault("%s#%s threw %s (declared `%s`)" % (decl, r["name"], detail, r["throw"]), c["expr"])
+                    throw_report.setdefault("%s#%s threw %s (declared `%s`)" % (decl, r["name"], detail, r["throw"]), text)
         if what:
             nfail += 1
-            ctx.fail(key, what, stream=stream, case=dict(row=r["key"], program=program([dict(c, id="c0")])),
+            ctx.fail(key, what, stream=stream, case=dict(row=r["key"], call=text, program=program([dict(c, id="c0")])[0]),
                      impl="%s %s" % (kind, detail), model="declared: %s ! %s" % (r["ret"], r["throw"]), oracle=oracle)
-        if len(samples) < 3 and kind in ("R", "E"):
-            samples.append({"input": c["expr"], "observed": "%s %s" % (kind, detail), "declared": "%s ! %s" % (r["ret"], r["throw"])})
+        if len(samples) < 3 and kind in ("R", "E") and (c.get("pre") or len(samples) < 2):
+            samples.append({"input": text, "observed": "%s %s" % (kind, detail), "declared": "%s ! %s" % (r["ret"], r["throw"])})
     # confirmations of the rows the table rejects: attach what really happens
     confirmed = {}
     for k in sorted(confirm):
@@ -569,26 +932,50 @@ def stream_calls(ctx, tab, elk, bad_rows, only_keys=None):
         if "id" not in c:
             continue
         kind, detail = cres.get(c["id"], ("lost", ""))
-        confirmed[k] = dict(call=c["expr"], observed="%s %s" % (kind, detail[:200]))
+        confirmed[k] = dict(call=shown(c), observed="%s %s" % (kind, detail[:200]))
     for k, v in skipped.items():
         dist["skipped:" + k] = v
+    for k, v in forms.items():
+        dist["form:" + k] = v
     ctx.extra["report_rejected_calls_sample"] = [
-        "%s -> %s" % (c["expr"], res[c["id"]][1][:160]) for c in chosen if res.get(c["id"], ("", ""))[0] == "rejected"][:12]
+        "%s -> %s" % (shown(c), res[c["id"]][1][:160]) for c in chosen if res.get(c["id"], ("", ""))[0] == "rejected"][:12]
     ctx.extra["report_thrown_checked_class_not_in_declared_throw_type"] = throw_report
-    ctx.stream(stream, len(chosen) + len(conf_list), len(distinct),
-               "every declared/inherited std method with a runtime implementation whose receiver class has a literal in the catalogue "
-               "(numbers, strings, chars, symbols, bool, nil, lists, tuples, maps, records, sets, finite/beginless ranges, their iterators, "
-               "regex, pair, dates/times/spans, path, boxes) is called through generated top-level Elk programs (`elk run`, 40 calls per "
-               "program, each in do/catch printing the runtime class of the result or of the thrown value) with well-typed catalogue "
-               "arguments for EVERY admitted positional argument count (and 0/2 rest arguments); quick = seeded sample of the calls, "
-               "thorough = all with 3 argument variants; calls the checker rejects are dropped and counted (`rejected`); a crashed program "
-               "is resumed after the crashing call and that call re-run alone; oracles: no Go panic/fatal; runtime class of the result "
-               "in the declared return type (class equality via type-level ancestors, nilable, unions, bool; any/type parameters/"
-               "interfaces/closures accept everything; generics ignored); thrown class covered by the declared throw type or not a class "
-               "any std method declares as thrown; non-trivial = distinct rows that produced a result or a caught error; plus one "
-               "confirmation call per class of table-rejected rows",
-               samples, dist, failures=nfail, corpus_rows=n_corpus, flaky_crashes_not_reproduced=flaky)
+    ctx.extra["report_result_probes"] = {"classes_with_probe": len(probes), "sample": dict(sorted(probes.items())[:12])}
+    ctx.stream(stream, len(chosen) + len(conf_list), len(distinct), RULE_CALLS,
+               samples, dist, failures=nfail, corpus_rows=n_corpus, flaky_crashes_not_reproduced=flaky,
+               generated_calls_before_budget=n_generated, rows_executed=len(rows_run), parameterless_rows_left_to_other_seeds=dropped_rows,
+               declared_type_value_pairs_accepted=len([1 for v in typing.values() if v]),
+               declared_type_value_pairs_rejected=len([1 for v in typing.values() if not v]),
+               result_probes_passed=nprobed, probes_dropped_by_checker=len([1 for c in chosen if c.get("probe_dropped")]))
     return confirmed
+
+
+QUICK_BUDGET = 9000
+RULE_CALLS = (
+    "every declared/inherited std method with a runtime implementation whose receiver class has values in the catalogue (Int incl. "
+    "boundary/BigInt, all fixed-width ints with their extremes, floats incl. NaN/inf, BigFloat, strings, chars, symbols, bool, nil, "
+    "lists/tuples/maps/records/sets incl. empty and singleton, finite/beginless ranges over Int/Char/Float, their iterators, regex, "
+    "pair, Date/Time/DateTime and their spans with zero/negative/mixed-sign/divisible components, timezone, path, boxes, errors; "
+    "SEVERAL receiver values per class) is called through generated top-level Elk programs (`elk run`, 40 calls per program, each "
+    "in do/catch printing the runtime class of the result or of the thrown value) for EVERY admitted positional argument count "
+    "(and 0/2 rest arguments). Arguments: for a parameter whose declared type T can be written in source (classes, unions, named "
+    "types such as CoercibleNumeric/AnyInt/Duration, interfaces, any) every catalogue value of EVERY member class of T (member "
+    "classes from the regenerated table; for interfaces/any the pairs the checker accepts in a pre-pass) is passed through a local "
+    "DECLARED with type T (`var a: T = v`), so that the overload declared with T - not the specialised `name@k` picked for a "
+    "literal - is the method called, and, for methods without overloads, also as a literal; type-parameter / closure / generic "
+    "parameters get literal catalogue values. The value lists contain the algebraically special values (0, 1, -1, 2, 3, small "
+    "primes = exact divisors and non-divisors of the receivers' components, boundary ints, empty/singleton collections; huge Ints "
+    "only where they are not a size/shift/exponent). Quick: for every row and count a one-factor plan (every core value of every "
+    "parameter at least once, receivers rotating from a seeded offset) plus seeded picks from the whole catalogue, parameterless "
+    "rows sampled from the seed if over budget; thorough: the full receiver x value product per row and count up to 300 "
+    "combinations, beyond that one-factor over all values plus seeded combinations. Calls the checker rejects are dropped and "
+    "counted (`rejected`); a crashed program is resumed after the crashing call and the first crash of a kind re-run alone. "
+    "Oracles: no Go panic/fatal; runtime class of the result in the declared return type (class equality via type-level ancestors, "
+    "nilable, unions, bool; any/type parameters/interfaces/closures accept everything; generics ignored); when the declared return "
+    "type is one concrete class C with a parameterless native method of its own, that method is called on the (statically C-typed) "
+    "result and must not end in a Go panic; thrown class covered by the declared throw type or not a class any std method declares "
+    "as thrown (reported only); non-trivial = distinct rows that produced a result or a caught error; plus one confirmation call "
+    "per class of table-rejected rows")
 
 
 def run(ctx):
